@@ -125,11 +125,13 @@ def tlc_ok(out):
     return "Model checking completed. No error has been found." in out or "Finished in" in out and "Error:" not in out
 
 
-def gen_behaviours(workdir, module, cfg_text, name="gen", simulate=None, workers=8, timeout=1800, depth=60):
+def gen_behaviours(workdir, module, cfg_text, name="gen", simulate=None, workers=8, timeout=1800, depth=60, pre=None):
     """Run TLC on a generator/model spec; return (behaviours, distinct, generated, wall).
     Each behaviour is the JSON value printed by PrintT(<<"BEHAVIOUR", ToJson(hist)>>)."""
     d = tlc_dir(workdir, name)
     open(os.path.join(d, module + ".cfg"), "w").write(cfg_text)
+    for fn, text in (pre or {}).items():
+        open(os.path.join(d, fn), "w").write(text)
     args = ["-workers", str(workers)]
     if simulate:
         # num is per worker; one worker keeps the output deterministic for a seed
@@ -229,7 +231,7 @@ def _run_shard(binary, scenarios, workdir, name, timeout_per):
     guard = 0
     while skip < n:
         guard += 1
-        if guard > n + 5:
+        if guard > 2 * n + 5:
             raise MachineryError("harness restart loop")
         try:
             p = subprocess.run([binary, "-scenarios", sfile, "-out", tfile, "-skip", str(skip)],
@@ -238,6 +240,17 @@ def _run_shard(binary, scenarios, workdir, name, timeout_per):
             raise MachineryError("harness timed out")
         if p.returncode == 0:
             break
+        if p.returncode == 4:
+            # the next scenario asked for a fresh process: restart after the last completed one
+            last_end = 0
+            with open(tfile) as f:
+                for line in f:
+                    if '"ev":"end"' in line.replace(" ", ""):
+                        last_end = json.loads(line)["idx"]
+            if last_end < skip:
+                raise MachineryError("fresh-process restart made no progress")
+            skip = last_end
+            continue
         # the process died inside a scenario: find it
         last_reset, ended = None, True
         with open(tfile) as f:
